@@ -1,15 +1,33 @@
-"""Per-property configuration: which units decide a property, and how a failed
-obligation is replayed against the real code."""
+"""Per-property configuration: which units decide a property, which obligations of a
+shared unit belong to it, and how a failed obligation is replayed against the real code."""
 
-# v_units: Verus units (contracts/<unit>/unit.py); k_groups: Kani harness groups (kani/<group>.py)
-# s_checks: structural table checks (engine/structural.py)
-# fn_filter: only obligations of these functions count for the property (None = all of the unit)
+C01_ARITH = [
+    r"^(zero_divisor_eval_error|undefined_eval_error|numerical_type_error|sub|arena_from_i64|arena_from_isize|Number_is_integer|Number_is_positive|idiv|remainder|ibig_rem_floor|modulus|int_floor_div|bitwise_complement|and|or|xor|shr|shl|gcd|binary_pow)::",
+    r"^add::(body|post#[12])$", r"^mul::(body|post#1)$", r"^neg::(body|post#[12])$", r"^abs::(body|post#[12])$",
+    r"^max::(body|post#[12])$", r"^min::(body|post#[12])$", r"^Number_sign::(body|post#[12])$",
+    r"^Number_is_zero::(body|post#[12])$", r"^Number_is_negative::(body|post#[12])$", r"^int_pow::(body|post#[123])$",
+    r"^lemma::",
+]
+C02_ARITH = [
+    r"^(float|unary_float_fn_template|sin|cos|tan|log|exp|asin|acos|atan|float_fractional_part|float_integer_part|sqrt|atan2|Number_div|div|float_pow|pow|round|floor|ceiling|truncate|zero_divisor_eval_error|undefined_eval_error)::",
+    r"^add::(body|post#[34])$", r"^mul::(body|post#[23])$", r"^neg::(body|post#3)$", r"^abs::(body|post#3)$",
+    r"^max::(body|post#3)$", r"^min::(body|post#3)$", r"^int_pow::(body|post#[14])$",
+    r"^Number_is_zero::(body|post#3)$", r"^Number_is_negative::(body|post#3)$", r"^Number_sign::(body|post#3)$",
+]
+
 PROPS = {
     "C01": {
         "title": "Integer arithmetic is exact at every magnitude",
-        "v_units": ["arith"],
+        "v_units": ["arith"], "ob_filter": {"arith": C01_ARITH},
         "k_groups": [],
         "replay": "arith",
+        "level": "proof",
+    },
+    "C02": {
+        "title": "Float and mixed-type evaluation follows IEEE-754 with ISO checks",
+        "v_units": ["arith"], "ob_filter": {"arith": C02_ARITH},
+        "k_groups": [],
+        "replay": "arith_float",
         "level": "proof",
     },
 }
